@@ -107,6 +107,18 @@ CHECKS = {
        "every event type declared in the matching .pcf, every non-zero value of a state type labelled, .row naming "
        "exactly the declared rows in the documented order (from the reference system model).",
   note="Only accepted traces are in scope; the row order oracle is lib/refemu.py's reading of the documentation."),
+ "C14": dict(
+  cat="exploration", ref="DESIGN.md section 3, C14",
+  technique="runtime monitoring: exhaustive small-domain and random differential run of the real version code, library and emulator against the semantic-versioning predicate",
+  text="(a) the real version_parse/version_is_compatible (ASan+UBSan harness) on all 324 (want,have) pairs over majors "
+       "and minors {0,1,2} and patches {0,9}, random triples up to 10^6 and unambiguously malformed strings; (b) "
+       "ovni_version_check_str of the built libovni for every triple around the library's own version and the malformed "
+       "strings (accept = returns, refuse = abort with a diagnostic); (c) the real ovniemu on traces that require each "
+       "of the eight models at versions around the emulator's own, malformed requirements, and subsets of the seven "
+       "optional models spread over two threads: the set the emulator reports as enabled must be exactly the required "
+       "set (all models with -a), probe events of enabled models are accepted and one of a disabled model is rejected.",
+  note="Oracle: major equal and minor not greater, patch ignored. Strings that strtol tolerates by accident are "
+       "recorded, not judged."),
 }
 
 NOT_YET = "check not implemented yet in this revision (work in progress, see DESIGN.md section 3)"
